@@ -34,6 +34,7 @@ ASSUMPTIONS = [
   "flex-plane and flex self contacts are matched by their integer ids (geom, flex, elem, vert) and compared point for point (f32dyn); "
   "flex-sphere contacts through invariants (validity, presence per pair, deepest penetration) because the manifolds differ by design",
   "the sensor stage is disabled in the parity scenarios (see family 'sensor_stage')",
+  "deepest-penetration invariant only for dim < 3 (MuJoCo: solid tetrahedra, MJWarp: surface triangles)",
   "models put_model refuses (NotImplementedError / ValueError) are outside the property ('accepted models'); an IndexError from put_model is reported as such",
   "real values (stiffness, Young modulus, perturbation amplitudes) from 4 curated alphabets (VERIF_SEED mod 4)",
 ]
@@ -264,8 +265,9 @@ def compare_geom_flex_invariants(c, pre, mjm, d, w, mjd, tag):
     elif key not in deep_m:
       if deep_w[key] < -1e-5:
         c.fail(f"flex_geom_contact_spurious:{tag}", f"{pre}MJWarp has contacts between geom {key[0]} and flex {key[1]} (deepest {deep_w[key]:.5f}), MuJoCo has none")
-    else:
-      c.close(pre + f"deepest penetration geom {key[0]} flex {key[1]}", deep_w[key], deep_m[key] , "f32dyn", vkey=f"flex_geom_deepest:{tag}")
+    elif mjm.flex_dim[key[1]] < 3:
+      # dim 3: MuJoCo collides the geom with solid tetrahedra, MJWarp with the surface triangles - depths are not comparable
+      c.close(pre + f"deepest penetration geom {key[0]} flex {key[1]}", deep_w[key], deep_m[key], "f32dyn", vkey=f"flex_geom_deepest:{tag}")
 
 
 def compare_contacts(c, pre, mjm, d, w, mjd, tag, degenerate_normals):
@@ -406,7 +408,7 @@ def execute(scn):
     except mujoco.FatalError as e:
       return dict(ok=True, nontrivial=False, outcome="mujoco_fatal", info=str(e)[:200], key=util.sha(scn))
     refs.append(mjd)
-  d = mjw.make_data(mjm, nworld=2, njmax=max(64, 2 * max(r.nefc for r in refs) + 16), nconmax=max(64, 2 * max(r.ncon for r in refs) + 16))
+  d = mjw.make_data(mjm, nworld=2, njmax=max(128, 3 * max(r.nefc for r in refs) + 64), nconmax=max(4096, 8 * max(r.ncon for r in refs) + 64))
   util.copy_state(refs[0], d, world=0)
   util.copy_state(refs[1], d, world=1)
   # the sensor stage is switched off here: sensor_acc indexes geom_bodyid with the -1 geom ids of flex contacts
